@@ -306,10 +306,14 @@ func (s *Stack) GetSlice(expr string) ([]any, bool) {
 	return nil, false
 }
 
+// maxPtrDepth: how many pointers are followed to reach a value (a pointer type may point to
+// itself: type P *P; p = &p).
+const maxPtrDepth = 16
+
 // derefPointers follows non-nil pointers to the value they point to (nil for a nil pointer).
 func derefPointers(v any) any {
 	rv := reflect.ValueOf(v)
-	for rv.IsValid() && rv.Kind() == reflect.Ptr {
+	for depth := 0; rv.IsValid() && rv.Kind() == reflect.Ptr && depth < maxPtrDepth; depth++ {
 		if rv.IsNil() {
 			return nil
 		}
@@ -374,7 +378,7 @@ func (s *Stack) ForEach(expr string, fn func(index int, value any) error) error 
 
 	rv := reflect.ValueOf(v)
 	// a pointer to a collection is looped over like the collection (Resolve indexes through it too)
-	for rv.IsValid() && rv.Kind() == reflect.Ptr && !rv.IsNil() {
+	for depth := 0; rv.IsValid() && rv.Kind() == reflect.Ptr && !rv.IsNil() && depth < maxPtrDepth; depth++ {
 		rv = rv.Elem()
 	}
 
